@@ -44,7 +44,9 @@ Definition op_bytes (kind : Z) (a b c : Z) : bytes :=
 Fixpoint dec_cc14ops (l : list Z) : list cc14op :=
   match l with
   | k :: a :: b :: c :: t =>
-      (if Z.eqb k 2 || Z.eqb k 8 then CReset else CFeed (op_bytes k a b c)) :: dec_cc14ops t
+      (if Z.eqb k 2 || Z.eqb k 8 then CReset
+       else if Z.eqb k 10 then CFeed (248, 0, 0)%N   (* real time passes: like a timing clock *)
+       else CFeed (op_bytes k a b c)) :: dec_cc14ops t
   | _ => []
   end.
 
@@ -390,7 +392,9 @@ Definition enc_slot (o : option bytes) : list Z :=
 Fixpoint dec_pnops (l : list Z) : list pnop :=
   match l with
   | k :: a :: b :: c :: t =>
-      (if Z.eqb k 2 || Z.eqb k 8 then NReset else NFeed (op_bytes k a b c)) :: dec_pnops t
+      (if Z.eqb k 2 || Z.eqb k 8 then NReset
+       else if Z.eqb k 10 then NFeed (248, 0, 0)%N   (* real time passes: like a timing clock *)
+       else NFeed (op_bytes k a b c)) :: dec_pnops t
   | _ => []
   end.
 
@@ -1181,6 +1185,21 @@ Definition check (tag : Z) (inp obs : list Z) : verdict :=
       let '(a, b) := take_ops (Z.to_nat n) rest in
       check_131 (dec_timeout timeout) (dec_sops a) (dec_sops b) obs
   | 132, timeout :: l => check_132 (dec_timeout timeout) l obs
+  | 133, [timeout; which; c; x; y; v; w] =>
+      (* a poll during which the timeout expires (the clock advances between two readings within
+         the call): the scanner must behave as if that poll had happened at one instant -- just
+         before the deadline (nothing reported, no effect) or at it *)
+      let t := nz timeout in
+      let st := (176 + nz c)%N in
+      let first := if Z.eqb which 0 then 6%N else 38%N in
+      let second := if Z.eqb which 0 then 38%N else 6%N in
+      let mk := fun (d1 d2 : N) =>
+        [OFeed (st, 99, nz x)%N; OFeed (st, 98, nz y)%N; OTick 10; OFeed (st, first, nz v);
+         OTick d1; OPoll (nz c); OTick d2; OPoll (nz c); OFeed (st, second, nz w);
+         OTick (t + 100); OPoll (nz c)] in
+      let early := enc_outs (poll_outs t (mk (t - 1) 101))%N in
+      let due := enc_outs (poll_outs t (mk t 100))%N in
+      mkV (listZ_eqb obs early) (listZ_eqb obs early || listZ_eqb obs due) early
   | 140, timeout :: h => check_140 (dec_timeout timeout) (dec_sops h) obs
   | 150, kind :: timeout :: nch :: c1 :: c2 :: c3 :: ops =>
       check_150 (ctor_kind kind) (ctor_timeout kind timeout) (firstn (Z.to_nat nch) [nz c1; nz c2; nz c3]) ops obs
